@@ -99,6 +99,14 @@ def gen(chk):
     for start, st in (('"a,b,c"', '.split(sep: ",")'), ('"a b"', '.split(sep: " ").{|a| a.len}'), ('"ff"', '.I(base: 16)'),
                       ('"101"', '.I(base: 2).+(1)'), ('"abcdefgh"', '.truncate(5, end: "~")')):
         chains.append(("kwargs", st, start))
+    # a property-call step by NAME: names that the value's prototype chain defines and the Either's own chain does not (built-in and
+    # native props of arr / str / int) are forwarded to the value — a name added to the Either later would capture the step
+    for start, st in (('[1, 2]', '.join(",")'), ('[1, 2]', '.len'), ('[1, 2]', '.rev'), ('[1, 2]', '.has?(2)'), ('"ab"', '.uc'), ('"AB"', '.lc'),
+                      ('"ab"', '.len'), ('"12"', '.I'), ('"1.5"', '.F'), ('"ab"', '.sym?'), ('65', '.chr'), ('4', '.even?'), ('4', '.odd?'),
+                      ('2', '.floor'), ('5', '.between?(0, 9)'), ('"a"', '.ord'), ('"abc"', '.rev'), ('3', '.sqrt'), ('3', '.-%'),
+                      ('"x"', '.*(3)'), ('[1]', '.+([2])'), ('7', '.%(4)'), ('1', '.F'),
+                      ('[1, 2]', '.join(",").len'), ('[1, 2]', '.rev.join("-").uc'), ('"a-b"', '.uc.lc.len')):
+        chains.append(("named-step", st, start))
     # names that Obj itself defines (S, p, keys ...) answer for the Either, not for the wrapped value: recorded finding
     for st in ('.S(base: 2)', '.p(end: "!")', '.keys'):
         chains.append(("proxy/shadowed_prop", st))
@@ -196,5 +204,6 @@ def main(chk):
     for i in (1, len(progs) // 2, len(progs) - 1):
         chk.sample({"program": progs[i], "impl": {k: res[i]["impl"].get(k) for k in ("kind", "repr", "errk", "errmsg", "out")},
                     "model_verdict": res[i]["verdict"]})
+    chk.cov["rule"] += " Added after seeded round 5: steps naming an absent property (outcome independent of the recorded message finding), 26 built-in / native property names of arr / str / int as steps."
     return pancore.conclude(chk, ok, broken, "Props/C13.v", res, viol, model_only, "C13",
                             "Core.Interp + native Wrappable/Either*.pangaea (from gen/World.v) vs props/either_*_props.go, evaluator/eval_proxyliteral.go")
